@@ -38,6 +38,7 @@ pub struct Profile {
     pub p_inner_where: f64,
     pub p_join_of_subqueries: f64,
     pub p_on_or: f64,
+    pub p_extra_select: f64,
     pub p_unsupported_agg: f64,
     /// Probability of an aggregation over an aggregation grouped by the inner aggregate
     /// (`SELECT t.c, count(*) FROM (SELECT count(*) AS c FROM base GROUP BY key) AS t GROUP BY t.c`).
@@ -72,6 +73,7 @@ impl Profile {
             p_inner_where: 0.5,
             p_join_of_subqueries: 0.0,
             p_on_or: 0.0,
+            p_extra_select: 0.0,
             p_unsupported_agg: 0.0,
             p_nested_group: 0.0,
             p_multi_dp: 0.0,
@@ -82,7 +84,7 @@ impl Profile {
             "C09" => Profile { p_fn_exprs: 0.25, p_modulo: 0.12, p_alias_shadow: 0.4, public_keys_only: true, benign_data: true, p_distinct: 0.12, p_row_privacy: 0.15, p_grouped: 0.65, ..base },
             "C04" => Profile { p_unsupported_agg: 0.08, p_key_via_agg: 0.25, p_nested_group: 0.08, p_nested: 0.0, need_private_key: true, p_grouped: 1.0, p_outer: 0.0, p_distinct: 0.05, ..base },
             "C16" => Profile { benign_data: true, full_catalogue: true, p_public_table: 1.0, p_synthetic: 0.3, ..base },
-            "C02" => Profile { p_join_of_subqueries: 0.05, p_on_or: 0.04, p_unsupported_agg: 0.08, p_cross: 0.04, p_outer_kinds: 0.05, p_multi_dp: 0.04, p_nested_group: 0.03, p_shared_cte: 0.08, p_plain: 0.25, p_synthetic: 0.4, p_public_table: 0.5, p_outer: 0.2, ..base },
+            "C02" => Profile { p_extra_select: 0.05, p_join_of_subqueries: 0.05, p_on_or: 0.04, p_unsupported_agg: 0.08, p_cross: 0.04, p_outer_kinds: 0.05, p_multi_dp: 0.04, p_nested_group: 0.03, p_shared_cte: 0.08, p_plain: 0.25, p_synthetic: 0.4, p_public_table: 0.5, p_outer: 0.2, ..base },
             _ => base,
         }
     }
@@ -831,6 +833,7 @@ pub fn generate(seed: u64, run: u64, prop: &str) -> Generated {
                 holders_override: Some(holders),
                 inner_where: vec![],
                 outer_group_by: false,
+                extra_select: vec![],
             };
             let base = Some((a, base_name.clone()));
             return finish(seed, run, tables2, synthetic, pu, params, query, base, tags, faults, &protected);
@@ -856,7 +859,7 @@ pub fn generate(seed: u64, run: u64, prop: &str) -> Generated {
                 op = rg.pick(&["UNION", "UNION ALL"])
             );
             tags.push("multi_dp".into());
-            let query = QuerySpec { from: vec![], where_: vec![], keys: vec![], aggs: vec![], having: None, outer: None, plain: None, cte: None, raw_sql: None, holders_override: None, inner_where: vec![], outer_group_by: false };
+            let query = QuerySpec { from: vec![], where_: vec![], keys: vec![], aggs: vec![], having: None, outer: None, plain: None, cte: None, raw_sql: None, holders_override: None, inner_where: vec![], outer_group_by: false, extra_select: vec![] };
             let base = Some((a, base_t.name.clone()));
             let mut g = finish(seed, run, tables, synthetic, pu, params, query, base, tags, faults, &protected);
             g.scenario.sql = sql;
@@ -891,7 +894,7 @@ pub fn generate(seed: u64, run: u64, prop: &str) -> Generated {
             let sql = if order { format!("WITH t AS ({}) {} UNION ALL {}", inner, first, second) } else { format!("WITH t AS ({}) {} UNION ALL {}", inner, second, first) };
             tags.push(format!("keys:{}", if public_set_of(&kc.ty).is_some() { "pub" } else { "priv" }));
             tags.push("shared_cte".into());
-            let query = QuerySpec { from: vec![], where_: vec![], keys: vec![], aggs: vec![], having: None, outer: None, plain: None, cte: None, raw_sql: None, holders_override: None, inner_where: vec![], outer_group_by: false };
+            let query = QuerySpec { from: vec![], where_: vec![], keys: vec![], aggs: vec![], having: None, outer: None, plain: None, cte: None, raw_sql: None, holders_override: None, inner_where: vec![], outer_group_by: false, extra_select: vec![] };
             let base = Some((a, base_t.name.clone()));
             let mut g = finish(seed, run, tables, synthetic, pu, params, query, base, tags, faults, &protected);
             g.scenario.sql = sql;
@@ -914,7 +917,7 @@ pub fn generate(seed: u64, run: u64, prop: &str) -> Generated {
                 oc = oc
             );
             let base = Some(("u".to_string(), "users".to_string()));
-            let query = QuerySpec { from: vec![], where_: vec![], keys: vec![], aggs: vec![], having: None, outer: None, plain: None, cte: None, raw_sql: None, holders_override: None, inner_where: vec![], outer_group_by: false };
+            let query = QuerySpec { from: vec![], where_: vec![], keys: vec![], aggs: vec![], having: None, outer: None, plain: None, cte: None, raw_sql: None, holders_override: None, inner_where: vec![], outer_group_by: false, extra_select: vec![] };
             let mut g = finish(seed, run, tables, synthetic, pu, params, query, base, tags, faults, &protected);
             g.scenario.sql = sql;
             g.scenario.query = None;
@@ -933,7 +936,7 @@ pub fn generate(seed: u64, run: u64, prop: &str) -> Generated {
         tags.push("plain".into());
         let set_op = if from.len() == 1 && rg.chance(0.3) { Some(*rg.pick(&["UNION", "UNION ALL", "EXCEPT", "INTERSECT"])) } else { None };
         let base = Some((alias_of(&base_t.name), base_t.name.clone()));
-        let query = QuerySpec { from, where_, keys: vec![], aggs: vec![], having: None, outer: None, plain: Some(plain), cte: None, raw_sql: None, holders_override: None, inner_where: vec![], outer_group_by: false };
+        let query = QuerySpec { from, where_, keys: vec![], aggs: vec![], having: None, outer: None, plain: Some(plain), cte: None, raw_sql: None, holders_override: None, inner_where: vec![], outer_group_by: false, extra_select: vec![] };
         if let Some(op) = set_op {
             // a set operation of the projection with itself (both branches read protected rows)
             tags.push("set_operation".into());
@@ -1122,7 +1125,7 @@ pub fn generate(seed: u64, run: u64, prop: &str) -> Generated {
             tags.push("nested".into());
         }
     }
-    let mut query = QuerySpec { from, where_, keys, aggs, having, outer: if cte.is_some() { None } else { outer }, plain: None, cte, raw_sql: None, holders_override: None, inner_where: vec![], outer_group_by: false };
+    let mut query = QuerySpec { from, where_, keys, aggs, having, outer: if cte.is_some() { None } else { outer }, plain: None, cte, raw_sql: None, holders_override: None, inner_where: vec![], outer_group_by: false, extra_select: vec![] };
     // HAVING on a SUM (own stream) instead of on count(*): the threshold has a fraction no sum of
     // generated values hits, so rounding cannot decide the group
     let mut rha = Rng::stream(seed, run, "having_agg");
@@ -1266,6 +1269,14 @@ pub fn generate(seed: u64, run: u64, prop: &str) -> Generated {
             let w = query.where_.remove(i);
             query.inner_where.push(w);
             tags.push("inner_where".into());
+        }
+    }
+    // a bare, un-grouped, un-aggregated column next to the aggregates (own stream)
+    let mut res = Rng::stream(seed, run, "extra_select");
+    if res.chance(profile.p_extra_select) && !query.keys.is_empty() && query.cte.is_none() && query.outer.is_none() {
+        if let Some((q, _)) = cols.iter().find(|(q, _)| !is_id(q) && !query.keys.iter().any(|k| k.expr.contains(q.as_str()))) {
+            query.extra_select.push((q.clone(), "x0".to_string()));
+            tags.push("extra_select".into());
         }
     }
     // one of several keys output through MAX / MIN of itself instead of a plain projection (own
